@@ -172,9 +172,12 @@ def end_justified(ctx, rule='C08.end-justified'):
     for fn in scope:
         du = ctx.du(fn)
         for bb in sorted(fn.reachable_blocks()):
-            for si, st in enumerate(fn.blocks[bb]['stmts']):
-                if not (st['k'] == 'assign' and st['p']['l'] == 0 and not st['p']['pr'] and st['rv']['k'] == 'agg' and st['rv'].get('variant') == 'None'):
-                    continue
+            sites = [(si, st) for si, st in enumerate(fn.blocks[bb]['stmts'])
+                     if st['k'] == 'assign' and st['p']['l'] == 0 and not st['p']['pr'] and st['rv']['k'] == 'agg' and st['rv'].get('variant') == 'None']
+            tt = fn.term(bb)
+            if tt['k'] == 'call' and tt['dest']['l'] == 0 and not tt['dest']['pr'] and (callee_of(tt) or {}).get('path') == 'std::ops::FromResidual::from_residual':
+                sites.append((None, None))        # `x?` on an Option: the None of x is handed back
+            for si, st in sites:
                 n += 1
                 just = []
                 ctrl = fn.control_deps_transitive(bb)
@@ -193,12 +196,13 @@ def end_justified(ctx, rule='C08.end-justified'):
                             just.append('comparison at %s' % fn.loc(x[1]))
                         elif nm in ('next', 'current') and cc and 'Cursor' in (cc.get('self_ty') or ''):
                             just.append('cursor %s at %s' % (nm, fn.loc(x[1])))
+                where = fn.loc(bb, si) if si is not None else fn.loc(bb)
                 if just:
-                    res.append(ok(rule, 'None at %s follows %s' % (fn.loc(bb, si), just[0]), sites=1))
+                    res.append(ok(rule, 'None at %s follows %s' % (where, just[0]), sites=1))
                 else:
                     res.append(bad(rule, '%s | iteration ended without consulting cursor or bound' % fn.qual,
                                    'Range::next returns None at %s although neither the end of the cursor nor a comparison of the current key with a bound controls that return '
-                                   '(controlled by: %s): entries inside the range are never yielded' % (fn.loc(bb, si), ', '.join(fn.loc(a) for a, _ in ctrl) or 'nothing'), where=fn.loc(bb, si)))
+                                   '(controlled by: %s): entries inside the range are never yielded' % (where, ', '.join(fn.loc(a) for a, _ in ctrl) or 'nothing'), where=where))
     f = floor(rule, 'None returns of Range::next', n, 2)
     if f:
         res.append(f)
@@ -227,8 +231,8 @@ def end_checked(ctx, rule='C08.end-checked'):
                     continue
                 yields = True
         t = X.term(bb)
-        if t['k'] == 'call' and t['dest']['l'] == 0 and not t['dest']['pr']:
-            yields = True
+        if t['k'] == 'call' and t['dest']['l'] == 0 and not t['dest']['pr'] and (callee_of(t) or {}).get('path') != 'std::ops::FromResidual::from_residual':
+            yields = True          # (`self.c.next()?` hands back None through from_residual: not an entry)
         if not yields:
             continue
         n += 1
@@ -241,6 +245,32 @@ def end_checked(ctx, rule='C08.end-checked'):
     f = floor(rule, 'blocks of Range::next that return an entry', n, 1)
     if f:
         res.append(f)
+    return res
+
+
+def seek_searches(ctx, rule='C08.seek-searches'):
+    """Cursor::seek positions the cursor by a tree search from the bucket's root on every path: a shortcut that re-uses the current stack (looking only at the
+    current leaf or its parent) is wrong whenever the key lies outside the subtree that stack describes"""
+    res = []
+    try:
+        (sk,) = ctx.need('Cursor::seek')
+    except AnchorError as e:
+        return [unresolved(rule, str(e))]
+    sr = ctx.A.get('search-role')
+    if sr is None:
+        return [unresolved(rule, 'search role')]
+    X = ctx.x(sk)
+    S = {bb for bb, t, c in calls_to_fn(ctx.facts, X, sr)}
+    if not S:
+        return [bad(rule, '%s | seek never searches' % sk.qual, 'Cursor::seek does not call the tree search', where='%s:%d' % (sk.file, sk.line))]
+    reach = X.reach_from([0], avoid=S)
+    rets = [bb for bb in sorted(reach) if X.term(bb)['k'] == 'return']
+    if rets:
+        res.append(bad(rule, '%s | seek can return without a search from the root' % sk.qual,
+                       'Cursor::seek can return at %s on a path that never calls the tree search (%s): the cursor keeps a position derived from its previous stack, which is '
+                       'wrong for a key outside that subtree' % (X.loc(rets[0]), sr.qual), where=X.loc(rets[0])))
+    else:
+        res.append(ok(rule, 'every return of Cursor::seek passes the tree search (%d call site(s))' % len(S), sites=len(S)))
     return res
 
 
@@ -336,7 +366,16 @@ def no_underflow(ctx, rule='C08.no-underflow'):
     ctx.stats['iterator_api_fns'] = len(fns)
     ctx.stats['length_subtractions'] = nsub
     ctx.stats['saturating_or_checked_subs'] = nsafe
-    f = floor(rule, 'length subtractions (plain or saturating/checked) reachable from the iterator API', nsub + nsafe, 1)
+    # positive control of the matcher (zero subtractions is a legitimate outcome: `index + 1 >= len` has nothing to underflow): container lengths are read
+    # somewhere in the functions examined
+    nlen = 0
+    for fn in fns:
+        for bb in fn.reachable_blocks():
+            t = fn.term(bb)
+            c = callee_of(t) if t['k'] == 'call' else None
+            if c and last_seg(strip_generics(c['path'])) in LEN_CALLS:
+                nlen += 1
+    f = floor(rule, 'positive control: container length reads in the functions reachable from the iterator API', nlen, 2)
     if f:
         res.append(f)
     if not any(not r.ok for r in res):
@@ -569,6 +608,7 @@ def run(ctx, tier):
     results += bounds_total(ctx)
     results += end_justified(ctx)
     results += end_checked(ctx)
+    results += seek_searches(ctx)
     import c07
     results += c07.scan_skips_empty(ctx, rule='C08.scan-skips-empty')
     results += start_compare(ctx)
